@@ -564,11 +564,13 @@ def _header_exprs (s):
   if isinstance(s, ast.Try) or isinstance(s, FUNC + (ast.ClassDef,)): return []
   return [c for c in ast.iter_child_nodes(s) if isinstance(c, ast.expr)]
 
+LOGGING = ('debug', 'info', 'warn', 'warning', 'error', 'exception', 'critical', 'log')
 def _impure_call_in (exprs):
   for e in exprs:
     for n in ast.walk(e):
       if isinstance(n, ast.Call):
         f = n.func
+        if isinstance(f, ast.Attribute) and f.attr in LOGGING and _base_text(f.value).split('.')[-1] in ('log', 'logger', 'logging'): continue
         if isinstance(f, ast.Name) and f.id in PURE_FUNCS: continue
         if isinstance(f, ast.Attribute) and f.attr in PURE_METHODS: continue
         return True
@@ -703,6 +705,7 @@ def expand_temps (fn, known_locals):
           if L in l2: between.append(j)
       for j in set(between):
         s2 = lin[j][0]
+        if isinstance(s2, ast.Raise): continue          # control leaves: nothing after it is reached through it
         sn, sh = _stmt_effects(s2)
         if sn & rnames: ok = False; break
         if rheap:
